@@ -5,6 +5,7 @@ package main
 import (
 	"fmt"
 	"go/types"
+	"hash/fnv"
 	"path"
 	"path/filepath"
 	"sort"
@@ -262,6 +263,12 @@ func (e *Exec) model(s *State, c *ssa.Call, fn *ssa.Function, full string, args 
 		return ret(mkErr(format + wrapped))
 	case "errors.New":
 		return ret(mkErr(concreteArg(args[0], "message")))
+	case "(time.Time).Format":
+		// the text of a time in some layout: an unknown string determined by the time
+		// and the layout (the time itself is not modelled)
+		return ret(atom(pureAtomName("Format", []string{textArg(args[1]).String()})))
+	case "(time.Time).IsZero":
+		return ret(mkVar("iszero!time", SBool))
 	case "errors.Join":
 		// nil when every argument is nil, else an error wrapping the non-nil ones
 		joined := ""
@@ -518,6 +525,24 @@ func (e *Exec) model(s *State, c *ssa.Call, fn *ssa.Function, full string, args 
 			}
 		}
 		return ret(atom(pureAtomName(full[strings.LastIndex(full, ".")+1:], []string{t.String()})))
+	case "strings.CutSuffix", "strings.CutPrefix", "strings.HasSuffix", "strings.EqualFold":
+		as, ok1 := textArg(args[0]).concrete()
+		bs, ok2 := textArg(args[1]).concrete()
+		if !ok1 || !ok2 {
+			unsupported("%s of unknown strings", full)
+		}
+		switch full {
+		case "strings.CutSuffix":
+			r, ok := strings.CutSuffix(as, bs)
+			return ret(lit(r), mkBool(ok))
+		case "strings.CutPrefix":
+			r, ok := strings.CutPrefix(as, bs)
+			return ret(lit(r), mkBool(ok))
+		case "strings.HasSuffix":
+			return ret(mkBool(strings.HasSuffix(as, bs)))
+		default:
+			return ret(mkBool(strings.EqualFold(as, bs)))
+		}
 	case "strings.TrimSuffix", "strings.TrimPrefix":
 		t := textArg(args[0])
 		as, ok1 := t.concrete()
@@ -796,7 +821,11 @@ func (e *Exec) builtin(s *State, c *ssa.Call, b *ssa.Builtin, args []Val) []Out 
 			}
 			m := s.Heap[v.Cell].(*MapAgg)
 			if m.Unknown {
-				unsupported("len of symbolic map")
+				// an unknown map has an unknown, non-negative number of entries (at least
+				// the ones written or asked about so far that are known to be present)
+				n := mkVar(fmt.Sprintf("maplen!%s!%d", m.Tag, v.Cell), SInt)
+				s.assume(mkCmp(">=", n, mkInt(0)))
+				return ret(n)
 			}
 			return ret(mkInt(int64(len(m.Keys))))
 		}
@@ -1413,7 +1442,12 @@ func deepEqualVal(s *State, a, b Val, depth int) (*T, bool) {
 		for i := range x.Elems {
 			t, ok := deepEqualVal(s, x.Elems[i], y.Elems[i], depth+1)
 			if !ok {
-				return nil, false
+				// this component cannot be decided: an unknown of its own, so that the
+				// components that CAN be decided still constrain the whole (two structs
+				// with different values in one field are not deeply equal)
+				h := fnv.New64a()
+				fmt.Fprintf(h, "%v|%v|%d|%d", x.Elems[i], y.Elems[i], depth, i)
+				t = mkVar(fmt.Sprintf("deepeq?!%x", h.Sum64()), SBool)
 			}
 			cs = append(cs, t)
 		}
